@@ -358,3 +358,521 @@ def feasible_reachable(g, tri: Callable[[ast.expr], Optional[bool]], starts=None
 def require(cond, msg):
     if not cond:
         raise AnalysisError(msg)
+
+
+# ---------------------------------------------------------------------------------------------- PyLite
+class Opaque:
+    """A value the interpreter knows only by name: `self`, a parameter, an attribute chain of one, the result of a
+    call on one.  `label` is the canonical source-like text (`parameter.type.types`,
+    `self.visit_empty_set_expr([t0, t1])`); for call results `call` = (callee label, [argument values], {kw})."""
+
+    __slots__ = ("label", "call")
+
+    def __init__(self, label, call=None):
+        self.label, self.call = label, call
+
+    def __repr__(self):
+        return self.label
+
+
+class SStr:
+    """A string with opaque fragments: parts are str | Opaque."""
+
+    __slots__ = ("parts",)
+
+    def __init__(self, parts):
+        out = []
+        for p in parts:
+            if isinstance(p, SStr):
+                out.extend(p.parts)
+            elif isinstance(p, str) and out and isinstance(out[-1], str):
+                out[-1] += p
+            elif p != "":
+                out.append(p)
+        self.parts = out
+
+    def text(self, hole="\x00?"):
+        return "".join(p if isinstance(p, str) else hole for p in self.parts)
+
+    def __repr__(self):
+        return "".join(p if isinstance(p, str) else "{" + p.label + "}" for p in self.parts)
+
+    def __eq__(self, o):
+        return isinstance(o, SStr) and repr(self) == repr(o)
+
+    def __hash__(self):
+        return hash(repr(self))
+
+
+def label_of(v) -> str:
+    """Canonical text of an interpreter value (matches `ast.unparse` of the expression that denotes it)."""
+    if isinstance(v, Opaque):
+        return v.label
+    if isinstance(v, list):
+        return "[" + ", ".join(label_of(x) for x in v) + "]"
+    if isinstance(v, tuple):
+        return "(" + ", ".join(label_of(x) for x in v) + ("," if len(v) == 1 else "") + ")"
+    if isinstance(v, dict):
+        return "{" + ", ".join(f"{label_of(k)}: {label_of(x)}" for k, x in v.items()) + "}"
+    if isinstance(v, SStr):
+        return repr(repr(v))
+    if hasattr(v, "short") and hasattr(v, "name"):
+        return v.name
+    return repr(v)
+
+
+def _mkstr(parts):
+    s = SStr(parts)
+    if all(isinstance(p, str) for p in s.parts):
+        return "".join(s.parts)
+    return s
+
+
+class _Signal(Exception):
+    def __init__(self, kind):
+        self.kind = kind
+
+
+import re as _re
+
+_FMT = _re.compile(r"%(?:\((\w+)\))?([srd%])")
+
+
+class PyLite(MiniInterp):
+    """MiniInterp extended to straight-line / loop code that builds strings and lists from opaque inputs:
+    for loops over concrete sequences, comprehensions, list/dict methods, %-formatting, f-strings, str.join,
+    `+`, conditional expressions, calls on opaque receivers (recorded, not executed).  The truth of an opaque
+    value is asked from `truth(label) -> True/False/None`; an undecided `if` raises Unsupported (no guessing, no
+    forking), an undecided conditional *expression* yields the common value of its arms or an opaque one.
+    A `raise` ends the run with ('raise', <exception name>)."""
+
+    def __init__(self, ctx, module, truth=None, max_depth: int = 4, cls=None, no_follow=()):
+        super().__init__(ctx, module, max_depth)
+        self.truth = truth or (lambda label: None)
+        # `self.<method>(...)` is interpreted when `cls` (static MRO) defines it in the same module and it is not
+        # in `no_follow`; when the callee cannot be interpreted the call stays an opaque, recorded call
+        self.cls, self.no_follow = cls, set(no_follow)
+
+    # -- entry: returns ('return', value) | ('raise', name)
+    def run(self, finfo, args: Sequence, depth: int = 0):
+        fn = finfo.node
+        a = fn.args
+        names = [x.arg for x in a.posonlyargs + a.args]
+        if len(args) > len(names):
+            raise Unsupported(f"{finfo.qualname}: too many arguments")
+        env = dict(zip(names, args))
+        defaults = dict(zip(names[len(names) - len(a.defaults):], a.defaults))
+        for n in names[len(args):]:
+            if n not in defaults:
+                raise Unsupported(f"{finfo.qualname}: missing argument {n}")
+            env[n] = self.ev(defaults[n], {}, depth)
+        for x, d in zip(a.kwonlyargs, a.kw_defaults):
+            if d is None:
+                raise Unsupported(f"{finfo.qualname}: required keyword-only argument")
+            env[x.arg] = self.ev(d, {}, depth)
+        if a.vararg:
+            env[a.vararg.arg] = ()
+        if a.kwarg:
+            env[a.kwarg.arg] = Opaque(a.kwarg.arg)
+        self.ctx.functions_analysed.add(finfo.key)
+        r = self._block(fn.body, env, depth)
+        return r if r is not None else ("return", None)
+
+    def call(self, finfo, args, depth: int = 0):
+        r = self.run(finfo, args, depth)
+        if r[0] != "return":
+            raise Unsupported(f"{finfo.qualname} raises {r[1]}")
+        return r[1]
+
+    # -- truthiness
+    def _truth(self, v, what=""):
+        if isinstance(v, Opaque):
+            t = self.truth(v.label)
+            if t is None:
+                raise Unsupported(f"truth of `{v.label}` is not determined{what}")
+            return t
+        if isinstance(v, SStr):
+            return True
+        return bool(v)
+
+    # -- statements
+    def _stmt(self, st, env, depth):
+        if isinstance(st, ast.If):
+            return self._block(st.body if self._truth(self.ev(st.test, env, depth), f" (`if {unparse(st.test)[:50]}`)") else st.orelse, env, depth)
+        if isinstance(st, ast.Return):
+            return ("return", None if st.value is None else self.ev(st.value, env, depth))
+        if isinstance(st, ast.Raise):
+            e = st.exc.func if isinstance(st.exc, ast.Call) else st.exc
+            return ("raise", unparse(e) if e is not None else "")
+        if isinstance(st, ast.Assign):
+            v = self.ev(st.value, env, depth)
+            for t in st.targets:
+                self._store(t, v, env, depth)
+            return None
+        if isinstance(st, ast.AnnAssign):
+            if st.value is not None:
+                self._store(st.target, self.ev(st.value, env, depth), env, depth)
+            return None
+        if isinstance(st, ast.AugAssign) and isinstance(st.target, ast.Name):
+            cur = self.ev(ast.Name(id=st.target.id, ctx=ast.Load()), env, depth)
+            env[st.target.id] = self._binop(st.op, cur, self.ev(st.value, env, depth), st)
+            return None
+        if isinstance(st, ast.Expr):
+            if isinstance(st.value, ast.Call):
+                self.ev(st.value, env, depth)  # list.append / dict.update on locals; opaque calls are recorded only
+            return None
+        if isinstance(st, (ast.Pass, ast.Assert)):
+            return None
+        if isinstance(st, ast.For) and not st.orelse:
+            seq = self.ev(st.iter, env, depth)
+            if not isinstance(seq, (list, tuple)):
+                raise Unsupported(f"loop over `{unparse(st.iter)[:50]}`")
+            for item in seq:
+                self._store(st.target, item, env, depth)
+                try:
+                    r = self._block(st.body, env, depth)
+                except _Signal as s:
+                    if s.kind == "break":
+                        break
+                    continue
+                if r is not None:
+                    return r
+            return None
+        if isinstance(st, ast.Break):
+            raise _Signal("break")
+        if isinstance(st, ast.Continue):
+            raise _Signal("continue")
+        if isinstance(st, ast.Try):
+            # exceptions of opaque calls are not modelled: the normal path
+            for part in (st.body, st.orelse, st.finalbody):
+                r = self._block(part, env, depth)
+                if r is not None:
+                    return r
+            return None
+        raise Unsupported(f"statement `{unparse(st)[:60]}`")
+
+    def _store(self, t, v, env, depth):
+        if isinstance(t, ast.Name):
+            env[t.id] = v
+        elif isinstance(t, (ast.Tuple, ast.List)):
+            if not isinstance(v, (list, tuple)) or len(v) != len(t.elts) or any(isinstance(e, ast.Starred) for e in t.elts):
+                raise Unsupported(f"unpacking into `{unparse(t)}`")
+            for te, ve in zip(t.elts, v):
+                self._store(te, ve, env, depth)
+        elif isinstance(t, ast.Subscript):
+            box = self.ev(t.value, env, depth)
+            if isinstance(box, (dict, list)):
+                box[self.ev(t.slice, env, depth)] = v
+            elif not isinstance(box, Opaque):
+                raise Unsupported(f"store to `{unparse(t)}`")
+        elif isinstance(t, ast.Attribute):
+            if not isinstance(self.ev(t.value, env, depth), Opaque):
+                raise Unsupported(f"store to `{unparse(t)}`")
+        else:
+            raise Unsupported(f"store to `{unparse(t)}`")
+
+    # -- expressions
+    def ev(self, e, env, depth):
+        if isinstance(e, ast.Name) and e.id not in env:
+            try:
+                return super().ev(e, env, depth)
+            except Unsupported:
+                return Opaque(e.id)  # an imported name / a class of another module
+        if isinstance(e, ast.Attribute):
+            base = self.ev(e.value, env, depth)
+            if isinstance(base, Opaque):
+                if isinstance(e.value, ast.Name) and e.value.id not in env:
+                    try:
+                        return super().ev(e, env, depth)  # `operators.in_op`, `_OpLimit._smallest`
+                    except Unsupported:
+                        pass
+                return Opaque(f"{base.label}.{e.attr}")
+            raise Unsupported(f"attribute `{unparse(e)}`")
+        if isinstance(e, ast.UnaryOp) and isinstance(e.op, ast.Not):
+            return not self._truth(self.ev(e.operand, env, depth), f" (`{unparse(e)[:50]}`)")
+        if isinstance(e, ast.BoolOp):
+            v = None
+            for i, x in enumerate(e.values):
+                v = self.ev(x, env, depth)
+                if i == len(e.values) - 1:
+                    return v
+                t = self._truth(v, f" (`{unparse(e)[:50]}`)")
+                if isinstance(e.op, ast.And) and not t:
+                    return v
+                if isinstance(e.op, ast.Or) and t:
+                    return v
+            return v
+        if isinstance(e, ast.IfExp):
+            tv = self.ev(e.test, env, depth)
+            try:
+                t = self._truth(tv)
+            except Unsupported:
+                a, b = self.ev(e.body, env, depth), self.ev(e.orelse, env, depth)
+                if type(a) is type(b) and not isinstance(a, Opaque) and a == b:
+                    return a
+                return Opaque(f"({label_of(a)} if {label_of(tv)} else {label_of(b)})")
+            return self.ev(e.body if t else e.orelse, env, depth)
+        if isinstance(e, ast.Compare):
+            left = self.ev(e.left, env, depth)
+            for op, rn in zip(e.ops, e.comparators):
+                right = self.ev(rn, env, depth)
+                if isinstance(left, Opaque) or isinstance(right, Opaque):
+                    if isinstance(op, (ast.Is, ast.IsNot, ast.Eq, ast.NotEq)) and isinstance(left, Opaque) and isinstance(right, Opaque) \
+                            and left.label == right.label:
+                        ok = isinstance(op, (ast.Is, ast.Eq))
+                    else:
+                        t = self.truth(f"{label_of(left)} {_CMP_TXT.get(type(op), '?')} {label_of(right)}")
+                        if t is None:
+                            raise Unsupported(f"comparison `{unparse(e)[:60]}` of an opaque value")
+                        ok = t
+                else:
+                    ok = self._cmp(op, left, right, e)
+                if not ok:
+                    return False
+                left = right
+            return True
+        if isinstance(e, ast.BinOp):
+            return self._binop(e.op, self.ev(e.left, env, depth), self.ev(e.right, env, depth), e)
+        if isinstance(e, ast.JoinedStr):
+            parts = []
+            for v in e.values:
+                if isinstance(v, ast.Constant):
+                    parts.append(v.value)
+                else:
+                    if v.format_spec is not None or v.conversion not in (-1, 115):
+                        raise Unsupported(f"f-string conversion in `{unparse(e)[:50]}`")
+                    parts.append(self._as_part(self.ev(v.value, env, depth)))
+            return _mkstr(parts)
+        if isinstance(e, ast.Dict):
+            if any(k is None for k in e.keys):
+                raise Unsupported("dict unpacking")
+            return {self.ev(k, env, depth): self.ev(v, env, depth) for k, v in zip(e.keys, e.values)}
+        if isinstance(e, (ast.ListComp, ast.GeneratorExp, ast.SetComp)):
+            out = []
+            self._comp(e.generators, 0, dict(env), depth, lambda env2: out.append(self.ev(e.elt, env2, depth)))
+            return out
+        if isinstance(e, ast.DictComp):
+            out = {}
+            self._comp(e.generators, 0, dict(env), depth,
+                       lambda env2: out.__setitem__(self.ev(e.key, env2, depth), self.ev(e.value, env2, depth)))
+            return out
+        if isinstance(e, ast.Subscript):
+            box = self.ev(e.value, env, depth)
+            if isinstance(box, Opaque):
+                return Opaque(f"{box.label}[{unparse(e.slice)}]")
+            if isinstance(e.slice, ast.Slice):
+                lo = self.ev(e.slice.lower, env, depth) if e.slice.lower else None
+                hi = self.ev(e.slice.upper, env, depth) if e.slice.upper else None
+                if isinstance(box, (list, tuple, str)) and e.slice.step is None and all(x is None or isinstance(x, int) for x in (lo, hi)):
+                    return box[lo:hi]
+                raise Unsupported(f"slice `{unparse(e)[:50]}`")
+            k = self.ev(e.slice, env, depth)
+            if isinstance(k, Opaque):
+                return Opaque(f"{label_of(box) if not isinstance(e.value, ast.Name) else e.value.id}[{k.label}]")
+            try:
+                return box[k]
+            except Exception:
+                raise Unsupported(f"`{unparse(e)[:50]}` fails for key {k!r}")
+        if isinstance(e, ast.Lambda):
+            return Opaque("<lambda>")
+        if isinstance(e, ast.Starred):
+            raise Unsupported("starred expression")
+        return super().ev(e, env, depth)
+
+    def _comp(self, gens, i, env, depth, emit):
+        if i == len(gens):
+            emit(env)
+            return
+        g = gens[i]
+        seq = self.ev(g.iter, env, depth)
+        if not isinstance(seq, (list, tuple)):
+            raise Unsupported(f"comprehension over `{unparse(g.iter)[:50]}`")
+        for item in seq:
+            env2 = dict(env)
+            self._store(g.target, item, env2, depth)
+            if all(self._truth(self.ev(c, env2, depth), " (comprehension filter)") for c in g.ifs):
+                self._comp(gens, i + 1, env2, depth, emit)
+
+    def _as_part(self, v):
+        if isinstance(v, (str, SStr, Opaque)):
+            return v
+        if isinstance(v, bool) or v is None or isinstance(v, int):
+            return str(v)
+        raise Unsupported(f"string conversion of {type(v).__name__}")
+
+    def _binop(self, op, a, b, e):
+        if isinstance(op, ast.Add):
+            if isinstance(a, (str, SStr)) and isinstance(b, (str, SStr, Opaque)) or isinstance(b, (str, SStr)) and isinstance(a, Opaque):
+                return _mkstr([a, b])
+            if isinstance(a, list) and isinstance(b, list):
+                return a + b
+            if isinstance(a, tuple) and isinstance(b, tuple):
+                return a + b
+            if isinstance(a, int) and isinstance(b, int):
+                return a + b
+        if isinstance(op, ast.Sub) and isinstance(a, int) and isinstance(b, int):
+            return a - b
+        if isinstance(op, ast.Mult):
+            if isinstance(a, (str, list, tuple)) and isinstance(b, int) and not isinstance(b, bool):
+                return a * b
+            if isinstance(a, int) and isinstance(b, (str, list, tuple, int)) and not isinstance(a, bool):
+                return a * b
+        if isinstance(op, ast.Mod) and isinstance(a, str):
+            return self._format(a, b)
+        if isinstance(a, Opaque) or isinstance(b, Opaque):
+            return Opaque(f"({label_of(a)} {type(op).__name__} {label_of(b)})")
+        raise Unsupported(f"operator in `{unparse(e)[:60]}`")
+
+    def _format(self, fmt, args):
+        seq = list(args) if isinstance(args, tuple) else [args]
+        named = args if isinstance(args, dict) else None
+        parts, pos, i = [], 0, 0
+        for m in _FMT.finditer(fmt):
+            parts.append(fmt[pos:m.start()])
+            pos = m.end()
+            if m.group(2) == "%":
+                parts.append("%")
+                continue
+            if m.group(1):
+                if named is None or m.group(1) not in named:
+                    raise Unsupported(f"format key {m.group(1)}")
+                v = named[m.group(1)]
+            else:
+                if named is not None or i >= len(seq):
+                    raise Unsupported("format arguments")
+                v = seq[i]
+                i += 1
+            parts.append(self._as_part(v) if m.group(2) != "r" else Opaque(f"repr({label_of(v)})"))
+        parts.append(fmt[pos:])
+        if named is None and i != len(seq):
+            raise Unsupported("format arguments")
+        return _mkstr(parts)
+
+    def _call(self, e, env, depth):
+        f = e.func
+        # arguments (opaque callees take anything)
+        def args():
+            out = []
+            for a in e.args:
+                if isinstance(a, ast.Starred):
+                    v = self.ev(a.value, env, depth)
+                    if not isinstance(v, (list, tuple)):
+                        raise Unsupported("star argument")
+                    out.extend(v)
+                else:
+                    out.append(self.ev(a, env, depth))
+            return out
+
+        def kwargs():
+            return {k.arg: self.ev(k.value, env, depth) for k in e.keywords if k.arg is not None}
+
+        if isinstance(f, ast.Name) and f.id not in env:
+            nm = f.id
+            if nm in _BUILTINS and not e.keywords:
+                a = args()
+                if any(isinstance(x, Opaque) for x in a) and nm != "isinstance":
+                    return Opaque(f"{nm}({', '.join(label_of(x) for x in a)})", (nm, a, {}))
+                try:
+                    if nm == "len":
+                        return len(a[0])
+                    if nm == "enumerate":
+                        return [(i, x) for i, x in enumerate(a[0], *(a[1:2]))]
+                    if nm == "zip":
+                        return [tuple(t) for t in zip(*a)]
+                    if nm == "range":
+                        return list(range(*a))
+                    if nm in ("list", "sorted"):
+                        return list(a[0]) if a else []
+                    if nm == "tuple":
+                        return tuple(a[0]) if a else ()
+                    if nm == "str":
+                        return self._as_part(a[0])
+                    if nm == "bool":
+                        return self._truth(a[0]) if a else False
+                    if nm == "reversed":
+                        return list(reversed(a[0]))
+                except Unsupported:
+                    raise
+                except Exception as ex:
+                    raise Unsupported(f"`{unparse(e)[:50]}`: {ex}")
+            if nm == "isinstance" and len(e.args) == 2:
+                obj = self.ev(e.args[0], env, depth)
+                if isinstance(obj, Opaque):
+                    t = self.truth(f"isinstance({obj.label}, {unparse(e.args[1])})")
+                    if t is None:
+                        raise Unsupported(f"`{unparse(e)[:60]}` on an opaque value")
+                    return t
+            try:
+                tgt = self._global(nm)
+            except Unsupported:
+                tgt = None
+            if isinstance(tgt, FuncRef) and not e.keywords and depth < self.max_depth:
+                return self.call(tgt.info, args(), depth + 1)
+            a, kw = args(), kwargs()
+            return Opaque(f"{nm}({self._arglabels(a, kw, e)})", (nm, a, kw))
+        if isinstance(f, ast.Attribute):
+            recv = self.ev(f.value, env, depth)
+            m = f.attr
+            if isinstance(recv, (str, SStr)) and m == "join" and len(e.args) == 1 and not e.keywords:
+                items = self.ev(e.args[0], env, depth)
+                if not isinstance(items, (list, tuple)):
+                    raise Unsupported(f"join over `{unparse(e.args[0])[:50]}`")
+                parts = []
+                for i, it in enumerate(items):
+                    if i:
+                        parts.append(recv)
+                    parts.append(self._as_part(it))
+                return _mkstr(parts)
+            if isinstance(recv, str) and m in ("upper", "lower", "strip", "lstrip", "rstrip") and not e.args:
+                return getattr(recv, m)()
+            if isinstance(recv, list) and m in ("append", "extend", "insert") and not e.keywords:
+                a = args()
+                try:
+                    getattr(recv, m)(*a)
+                except Exception as ex:
+                    raise Unsupported(f"`{unparse(e)[:50]}`: {ex}")
+                return None
+            if isinstance(recv, dict) and not e.keywords:
+                a = args()
+                if any(isinstance(x, Opaque) for x in a[:1]):
+                    return Opaque(f"{unparse(f.value)}.{m}({', '.join(label_of(x) for x in a)})")
+                if m == "get" and 1 <= len(a) <= 2:
+                    return recv.get(a[0], a[1] if len(a) == 2 else None)
+                if m == "items" and not a:
+                    return [(k, v) for k, v in recv.items()]
+                if m == "keys" and not a:
+                    return list(recv)
+                if m == "values" and not a:
+                    return list(recv.values())
+                if m == "update" and len(a) == 1 and isinstance(a[0], (dict, list)):
+                    recv.update(a[0])
+                    return None
+            if isinstance(recv, Opaque):
+                a, kw = args(), kwargs()
+                callee = f"{recv.label}.{m}"
+                if recv.label == "self" and self.cls is not None and m not in self.no_follow and depth < self.max_depth \
+                        and not any(k.arg is None for k in e.keywords):
+                    tgt = self.ctx.index.resolve_method(self.cls, m)
+                    if tgt is not None and tgt.module is self.module and not tgt.type_only:
+                        names = [x.arg for x in tgt.node.args.posonlyargs + tgt.node.args.args]
+                        if all(k in names for k in kw) and len(a) + 1 + len(kw) <= len(names):
+                            try:
+                                full = [recv] + a
+                                rest = names[len(full):]
+                                if all(n in kw for n in rest[:len(kw)]):
+                                    return self.call(tgt, full + [kw[n] for n in rest[:len(kw)]], depth + 1)
+                            except (Unsupported, _Signal, RecursionError):
+                                pass
+                return Opaque(f"{callee}({self._arglabels(a, kw, e)})", (callee, a, kw))
+        return super()._call(e, env, depth)
+
+    @staticmethod
+    def _arglabels(a, kw, e):
+        out = [label_of(x) for x in a] + [f"{k}={label_of(v)}" for k, v in kw.items()]
+        out += [f"**{unparse(k.value)}" for k in e.keywords if k.arg is None]
+        return ", ".join(out)
+
+
+_BUILTINS = {"len", "enumerate", "zip", "range", "list", "tuple", "str", "bool", "sorted", "reversed"}
+_CMP_TXT = {ast.Is: "is", ast.IsNot: "is not", ast.Eq: "==", ast.NotEq: "!=", ast.Lt: "<", ast.LtE: "<=", ast.Gt: ">",
+            ast.GtE: ">=", ast.In: "in", ast.NotIn: "not in"}
